@@ -1,2 +1,46 @@
 """hooks.py — property-specific searches run by check in addition to the generic suites."""
-HOOKS = {}
+import os
+import subprocess
+
+import corr
+
+VERIF = os.path.dirname(os.path.dirname(os.path.abspath(__file__)))
+HARNESS = os.path.join(VERIF, "harness")
+RL_DIR = os.path.join(HARNESS, "target", "rl")
+
+
+def rlplugins(prop, tier, seed, problems, known, known_hits, notes):
+    """Thorough tier: the plug-in cdylibs are rebuilt by the *nightly* compiler with `-Zrandomize-layout`, so that
+    repr(Rust) types are laid out differently on the two sides of the boundary (the harness stays on stable), and
+    the `plugin` suite runs against them.  C11: what the implementation observes must not depend on it."""
+    if tier != "thorough":
+        return
+    env = dict(os.environ, RUSTFLAGS="-Zrandomize-layout")
+    cmd = ["cargo", "+nightly", "build", "--offline", "--target-dir", RL_DIR]
+    for k in sorted(os.listdir(os.path.join(HARNESS, "plugins"))):
+        cmd += ["-p", "sfv-plugin-" + k]
+    p = subprocess.run(cmd, cwd=HARNESS, env=env, stdout=subprocess.PIPE, stderr=subprocess.STDOUT, text=True)
+    if p.returncode != 0:
+        notes.append("randomised-layout plug-ins not built (nightly toolchain unavailable or build failed): " + p.stdout[-300:].replace("\n", " "))
+        return
+    old = os.environ.get("SFV_PLUGIN_DIR")
+    os.environ["SFV_PLUGIN_DIR"] = os.path.join(RL_DIR, "debug")
+    try:
+        total = 0
+        for sd in (seed, seed + 1):
+            r = corr.run_suite(["plugin", "--cases", "10", "--seed", str(sd)])
+            total += r["cases"]
+            for d in r["disagreements"]:
+                problems.append(("model-impl-disagreement", "DISAGREE suite=plugin/randomised-layout req=%s impl=%s model=%s" % (d["request"], d["impl"], d["model"]),
+                                 dict(d, suite="plugin/randomised-layout", env={"SFV_PLUGIN_DIR": os.environ["SFV_PLUGIN_DIR"]})))
+            for v in r["impl_violations"]:
+                problems.append(("impl-violates-property", v[:600], {"suite": "plugin/randomised-layout", "observation": v}))
+        notes.append("plug-ins rebuilt with nightly -Zrandomize-layout: %d cross-boundary cases agree with the model" % total)
+    finally:
+        if old is None:
+            del os.environ["SFV_PLUGIN_DIR"]
+        else:
+            os.environ["SFV_PLUGIN_DIR"] = old
+
+
+HOOKS = {"rlplugins": rlplugins}
